@@ -760,6 +760,24 @@ Section AnySampler.
     - apply aggregate_unit; auto; [apply rates_unit; intro t; now apply s_fpr_unit|apply rates_at_length].
     - apply aggregate_unit; auto; [apply rates_unit; intro t; now apply s_fnr_unit|apply rates_at_length].
   Qed.
+  (* experimental.pointwise_band_ci, any sampler obeying the at-least-one rule: rates match thresholds, bands (n,2),
+     NaN-free, within [0,1] *)
+  Theorem pointwise_band_wellformed s fnr0 fpr0 thr0 nb_points alpha cfg hist c :
+    proper s -> 0 < alpha -> alpha < 1 -> (0 < nb_samples cfg)%nat -> samples_proper s cfg hist ->
+    pointwise_band_ci succ pred pow Phi PhiInv pow15 H dynamic_choice builtin_sample s fnr0 fpr0 thr0 nb_points alpha cfg hist = Ret c ->
+    find_support_thresholds succ pred s fnr0 fpr0 thr0 nb_points default_nb_extra_points default_x_axis = Ret (rc_thresholds c) /\
+    rc_fnr c = rates_at s_fnr s (rc_thresholds c) /\ rc_fpr c = rates_at s_fpr s (rc_thresholds c) /\
+    exists fb pb, rc_fnr_ci c = Some fb /\ rc_fpr_ci c = Some pb /\
+      unit_rows (length (rc_thresholds c)) fb /\ unit_rows (length (rc_thresholds c)) pb.
+  Proof.
+    intros Hs A0 A1 Hn Hsp. unfold pointwise_band_ci. intro E.
+    apply rbind_ret in E. destruct E as (ths & Eth & E). apply rbind_ret in E. destruct E as ([fnr_ci fpr_ci] & Epw & E).
+    injection E as <-. cbn [rc_thresholds rc_fnr rc_fpr rc_fnr_ci rc_fpr_ci].
+    split; [exact Eth|]. split; [reflexivity|]. split; [reflexivity|].
+    eexists _, _. split; [reflexivity|]. split; [reflexivity|].
+    apply pointwise_unit in Epw; auto; [|now rewrite !rates_at_length].
+    rewrite rates_at_length in Epw. exact Epw.
+  Qed.
 End AnySampler.
 
 (* ====================================================================== *)
@@ -935,3 +953,65 @@ Section Envelope.
     eexists _, _. split; [exact E1|]. split; [exact E2|]. auto.
   Qed.
 End Envelope.
+
+(* ====================================================================== *)
+(* H. ordering under the identity sampler (unconditional on norm.cdf/ppf)  *)
+(* ====================================================================== *)
+Lemma rule3_ordered pow p ci alpha n :
+  (forall a e, 0 < a -> a < 1 -> 0 <= pow a e /\ pow a e <= 1) -> 0 < alpha -> alpha < 1 ->
+  length p = length ci -> ordered_rows ci -> ordered_rows (apply_rule_of_three pow p ci alpha n).
+Proof.
+  intros Hp A0 A1 Hl Ho j lo hi E. destruct (Nat.lt_ge_cases j (length ci)) as [Hj|Hj].
+  - rewrite rule3_nth in E by assumption. destruct (Hp alpha (1 / inject_Z n) A0 A1) as [P0 P1].
+    unfold rule3_row, upper_correction, lower_correction in E.
+    destruct (rgt_q _ _); [injection E as <- <-; lra|]. destruct (rlt_q _ _); [injection E as <- <-; lra|]. eapply Ho, E.
+  - rewrite nth_overflow in E by (rewrite rule3_length; assumption). discriminate.
+Qed.
+Lemma pw_ok_ordered q n pw : pw_ok q n pw -> ordered_rows pw.
+Proof.
+  intros [L U] j lo hi E. destruct (Nat.lt_ge_cases j n) as [Hj|Hj].
+  - destruct (U j Hj) as (lo' & hi' & c & _ & E' & Hlo & Hhi). pose proof (eq_trans (eq_sym E) E') as X. injection X as -> ->. lra.
+  - rewrite nth_overflow in E by lia. discriminate.
+Qed.
+Lemma pw_ok_some q n pw : pw_ok q n pw -> some_rows n pw.
+Proof. intros [L U]. split; [exact L|]. intros j Hj. destruct (U j Hj) as (lo & hi & c & _ & E & _). eauto. Qed.
+Lemma rule3_some pow p ci alpha n : length p = length ci -> some_rows (length ci) ci ->
+  some_rows (length ci) (apply_rule_of_three pow p ci alpha n).
+Proof.
+  intros Hl [_ U]. split; [now apply rule3_length|]. intros j Hj. rewrite rule3_nth by assumption.
+  unfold rule3_row, upper_correction, lower_correction. destruct (rgt_q _ _); [eauto|]. destruct (rlt_q _ _); [eauto|]. apply U, Hj.
+Qed.
+
+Theorem roc_with_ci_identity_ordered succ pred pow Phi PhiInv pow15 (H : Type) dynamic_choice builtin_sample
+    s fnr0 fpr0 thr0 nb_points x alpha cfg (hist : nat -> H) c :
+  (forall a e, 0 < a -> a < 1 -> 0 <= pow a e /\ pow a e <= 1) ->
+  proper s -> identity_sampler H dynamic_choice builtin_sample s cfg hist -> 0 < alpha -> alpha < 1 -> (0 < nb_samples cfg)%nat ->
+  roc_with_ci succ pred pow Phi PhiInv pow15 H dynamic_choice builtin_sample s fnr0 fpr0 thr0 nb_points x alpha cfg hist = Ret c ->
+  exists fb pb, rc_fnr_ci c = Some fb /\ rc_fpr_ci c = Some pb /\
+    some_rows (length (rc_thresholds c)) fb /\ some_rows (length (rc_thresholds c)) pb /\ ordered_rows fb /\ ordered_rows pb.
+Proof.
+  intros Hp Hs Hid A0 A1 Hn E.
+  assert (Eth : exists ths, find_support_thresholds succ pred s fnr0 fpr0 thr0 nb_points (Some ROC_CI_EXTRA_POINTS) x = Ret ths).
+  { unfold roc_with_ci in E. apply rbind_ret in E. destruct E as (ths & Eth & _). eauto. }
+  destruct Eth as [ths Eth].
+  destruct (roc_with_ci_identity succ pred pow Phi PhiInv pow15 H dynamic_choice builtin_sample s fnr0 fpr0 thr0 nb_points x alpha cfg hist ths
+              Hs Hid A0 A1 Hn Eth) as (t_fpr & t_fnr & fnr_pw & fpr_pw & _ & _ & P1 & P2 & E').
+  cbv zeta in E'. rewrite E in E'. injection E' as ->. cbn [rc_thresholds rc_fnr_ci rc_fpr_ci].
+  set (fnr := rates_at s_fnr s ths). set (fpr := rates_at s_fpr s ths).
+  assert (L1 : length fnr = length fnr_pw) by (unfold fnr; rewrite rates_at_length; symmetry; exact (proj1 P1)).
+  assert (L2 : length fpr = length fpr_pw) by (unfold fpr; rewrite rates_at_length; symmetry; exact (proj1 P2)).
+  pose proof (rule3_ordered pow fnr fnr_pw alpha (nb_all_pos s) Hp A0 A1 L1 (pw_ok_ordered _ _ _ P1)) as O1.
+  pose proof (rule3_ordered pow fpr fpr_pw alpha (nb_all_neg s) Hp A0 A1 L2 (pw_ok_ordered _ _ _ P2)) as O2.
+  pose proof (pw_ok_some _ _ _ P1) as S1. pose proof (pw_ok_some _ _ _ P2) as S2.
+  rewrite <- (proj1 P1) in S1. rewrite <- (proj1 P2) in S2.
+  pose proof (rule3_some pow fnr fnr_pw alpha (nb_all_pos s) L1 S1) as R1.
+  pose proof (rule3_some pow fpr fpr_pw alpha (nb_all_neg s) L2 S2) as R2.
+  rewrite (proj1 P1) in R1. rewrite (proj1 P2) in R2.
+  assert (SF : forall j, (j < length fnr)%nat -> exists v, nth j fnr None = Some v).
+  { intros j Hj. unfold fnr, rates_at in *. rewrite map_length in Hj. rewrite nth_map_in with (d' := 0) by exact Hj. now apply s_fnr_some. }
+  assert (SP : forall j, (j < length fpr)%nat -> exists v, nth j fpr None = Some v).
+  { intros j Hj. unfold fpr, rates_at in *. rewrite map_length in Hj. rewrite nth_map_in with (d' := 0) by exact Hj. now apply s_fpr_some. }
+  destruct (aggregate_some fpr _ _ (length ths) SP (rates_at_length _ _ _) R2 R1) as [A A'].
+  destruct (aggregate_some fnr _ _ (length ths) SF (rates_at_length _ _ _) R1 R2) as [B B'].
+  eexists _, _. split; [reflexivity|]. split; [reflexivity|]. auto.
+Qed.
